@@ -250,6 +250,15 @@ def notSameAsLast (rl : Readline) : Bool × Bool :=
   let e := rl.line.equal (rl.hist.drop (rl.histOff 1))
   (!e.1, e.2)
 
+/-- the history part of the NEWLINE branch of `readline_putchar`:
+`if (history_space && line.len && readline_is_not_same_as_last(rl)) push_current_line` -/
+def storeLine (rl : Readline) : Readline :=
+  if rl.hasHist ∧ rl.line.len ≠ 0 then
+    let ns := rl.notSameAsLast
+    let rl0 := { rl with hfault := rl.hfault || ns.2 }
+    if ns.1 then rl0.pushCurrent else rl0
+  else rl
+
 /-- `readline_putchar` / `igris::readline::newdata` -/
 def putchar (rl : Readline) (c : Byte) : Readline × Int :=
   match rl.state with
@@ -258,13 +267,7 @@ def putchar (rl : Readline) (c : Byte) : Readline × Int :=
       if (rl.last = LF ∨ rl.last = CR) ∧ rl.last ≠ c then
         ({ rl with last := 0 }, RL_NOTHING)          -- fix: return here
       else
-        let rl1 :=
-          if rl.hasHist ∧ rl.line.len ≠ 0 then
-            let ns := rl.notSameAsLast
-            let rl0 := { rl with hfault := rl.hfault || ns.2 }
-            if ns.1 then rl0.pushCurrent else rl0
-          else rl
-        ({ rl1 with curhist := 0, last := c }, RL_NEWLINE)
+        ({ rl.storeLine with curhist := 0, last := c }, RL_NEWLINE)
     else if c = BS then
       let r := rl.line.backspace 1
       ({ rl with line := r.1, last := c }, if r.2 ≠ 0 then RL_BACKSPACE else RL_NOTHING)
